@@ -152,3 +152,17 @@ Example C04_source_example :
       /\ g_link (fst (LinkTie.run_incremental 2 LinkLang.KRemove [[1;2]]%N rm1)) 2%N 3%N 0%N = true
       /\ snd (LinkTie.run_incremental 2 LinkLang.KRemove [[7;8]]%N rm1) = None).
 Proof. vm_compute. repeat split; reflexivity. Qed.
+
+(* The full rebuild, of the SOURCE: CoreEnforcer.build_role_links (clear every role manager, then
+   self.model.build_role_links(self.rm_map)) is re-translated on every run (translators/loadpolicy.py, LoadLang.v: each statement
+   one recognised step; Policy.build_role_links is checked to be the loop over self["g"].items() that hands each role
+   definition's rules to Assertion.build_role_links - tied above); LoadTie.v proves that it computes Mgmt.build_role_links, the
+   function `freshen` and the OBuildLinks / OLoad steps of `run` are made of. *)
+From PyCasbin Require LoadLang LoadTie.
+From PyCasbinGen Require LoadPolicyGen.
+
+Theorem C04_source_build_role_links_enforcer : forall k s,
+  LoadTie.run_build_role_links k s =
+  (fst (build_role_links k s), match snd (build_role_links k s) with None => ok (VL []) | Some c => verr c end).
+Proof. exact LoadTie.tie_build_role_links. Qed.
+Print Assumptions C04_source_build_role_links_enforcer.
